@@ -101,6 +101,11 @@ def injections(rng, toks, defs, tier):
             ("anon-output-arity", "template BadL5() { signal input i; signal output o; signal output p; (o, p) <== LibT(1)(i); }\n"),
             ("anon-in-loop-too-many-inputs", "template BadL6() { signal input i; signal output o[2]; for (var k = 0; k < 2; k++) { o[k] <== LibT(k)(i, i); } }\n")):
         out.append(("library-template-%s" % nm, None, top_ok(body), ["main.circom"]))
+    # an included file that cannot be parsed (audit C05 f1): its definitions are missing from the analysis of the named file, so the
+    # failure has to be visible from the named file — at the include statement
+    for nm, lib in (("syntax", lib_syntax), ("unterminated-comment", "pragma circom 2.0.0;\ntemplate LibOk() { signal input a; signal output b; b <== a; }\n/* never closed"),
+                    ("lexical", "pragma circom 2.0.0;\ntemplate LibOk() { signal input a; @ }\n")):
+        out.append(("included-only-file-%s" % nm, None, {"main.circom": top, "lib_bad.circom": lib}, ["main.circom"]))
     for nm, lib in (("syntax", lib_syntax), ("collision", lib_collision)):
         out.append(("named-and-included-%s-lib-first" % nm, None, {"main.circom": top, "lib_bad.circom": lib}, ["lib_bad.circom", "main.circom"]))
         out.append(("named-and-included-%s-lib-last" % nm, None, {"main.circom": top, "lib_bad.circom": lib}, ["main.circom", "lib_bad.circom"]))
@@ -191,7 +196,7 @@ def run(ctx):
     cov["failure_classes"] = dict(by_class)
     cov["distribution"] = dict(stats)
     cov["samples"] = samples or [{"note": "see failure_classes"}]
-    ctx.assumptions += ["an included-only file that fails to parse is outside C02 (the property speaks about files named on the command line)",
+    ctx.assumptions += [
                         "running as root, permission-based unreadability cannot be produced; invalid UTF-8 and a directory stand in for it"]
 
 
